@@ -103,8 +103,8 @@ theorem C19_elf_roundtrip (b name payload : Bytes) (v : ValidElf b name)
 header fields `e_shoff` (40..47) and `e_shnum` (60,61) is the input's; the bytes from there to the old
 section header table are the input's moved up by the inserted name (`name.length + 1`); the payload and
 then the old section header table follow, the table changed only in the names section's size (longer by
-the inserted name) and in the file offsets of the sections behind the names section (moved by the same
-amount) - so every section's contents are found, unchanged, where the result's header for it points,
+the inserted name) and in the file offsets of the sections whose data lies at or behind the insertion point, whatever their
+index (moved by the same amount; the repair of finding C19-F12) - so every section's contents are found, unchanged, where the result's header for it points,
 and every segment that lies in front of the names section's end loads as before. -/
 theorem C19_elf_preserved (b name payload : Bytes) (v : ValidElf b name)
     (hsz : b.length + payload.length + 2 ^ 17 < U64) :
@@ -114,6 +114,21 @@ theorem C19_elf_preserved (b name payload : Bytes) (v : ValidElf b name)
       (∀ j, j < eNum b * eEntsize b → out[eShoff b + (name.length + 1) + payload.length + j]? = T2[j]?) ∧
       eShoff out = eShoff b + (name.length + 1) + payload.length ∧ eNum out = eNum b + 1 :=
   addElf_preserved b name payload v hsz
+
+/-- **ELF: every old section is found, unchanged, where the result's header for it points** - whatever the order of the
+sections in the file and in the table (this is what finding C19-F12 violated for layouts whose file order and table order
+disagree; proved after the repair): for a section other than the names section that lies behind the ELF header, in front of the
+section header table, and does not straddle the insertion point, the bytes at the offset its header in the RESULT holds are
+the bytes it had in the input. -/
+theorem C19_elf_sections_preserved (b name payload : Bytes) (v : ValidElf b name)
+    (hsz : b.length + payload.length + 2 ^ 17 < U64) :
+    ∃ out, addElf b name payload = .ok out ∧
+      ∀ idx, idx < eNum b → idx ≠ eStrndx b →
+        64 ≤ secField b idx 0x18 8 → secField b idx 0x18 8 + secField b idx 0x20 8 ≤ eShoff b →
+        (secField b idx 0x18 8 + secField b idx 0x20 8 ≤ eNamesOff b + eNamesSize b ∨ eNamesOff b + eNamesSize b ≤ secField b idx 0x18 8) →
+        slice out (leVal (slice out (eShoff out + idx * eEntsize b + 0x18) 8)) (secField b idx 0x20 8) =
+          slice b (secField b idx 0x18 8) (secField b idx 0x20 8) :=
+  addElf_sections_preserved b name payload v hsz
 
 /-- a 196-byte ELF64 image: header, a names section `"\0.s\0"` at 64, the null section and the names section -/
 def elf1 : Bytes := [127, 69, 76, 70, 2, 1, 1, 0, 0, 0, 0, 0, 0, 0, 0, 0, 0, 0, 0, 0, 0, 0, 0, 0, 0, 0, 0, 0, 0, 0, 0, 0, 0, 0, 0, 0, 0, 0, 0, 0, 68, 0, 0, 0, 0, 0, 0, 0, 0, 0, 0, 0, 0, 0, 0, 0, 0, 0, 64, 0, 2, 0, 1, 0, 0, 46, 115, 0, 0, 0, 0, 0, 0, 0, 0, 0, 0, 0, 0, 0, 0, 0, 0, 0, 0, 0, 0, 0, 0, 0, 0, 0, 0, 0, 0, 0, 0, 0, 0, 0, 0, 0, 0, 0, 0, 0, 0, 0, 0, 0, 0, 0, 0, 0, 0, 0, 0, 0, 0, 0, 0, 0, 0, 0, 0, 0, 0, 0, 0, 0, 0, 0, 1, 0, 0, 0, 3, 0, 0, 0, 0, 0, 0, 0, 0, 0, 0, 0, 0, 0, 0, 0, 0, 0, 0, 0, 64, 0, 0, 0, 0, 0, 0, 0, 4, 0, 0, 0, 0, 0, 0, 0, 0, 0, 0, 0, 0, 0, 0, 0, 0, 0, 0, 0, 0, 0, 0, 0, 0, 0, 0, 0, 0, 0, 0, 0]
